@@ -76,8 +76,15 @@ impl FeatureConstraint for SkillsConstraint {
             (Some(_), None) | (None, None) => true,
             (None, Some(_)) => false,
             (Some(source_skills), Some(candidate_skills)) => {
+                // NOTE: the merged job keeps source skills. A vehicle which has one of the source's `one_of` skills has
+                // one of the candidate's too only when every alternative of the source is listed by the candidate
+                let check_one_of = match (source_skills.one_of.as_ref(), candidate_skills.one_of.as_ref()) {
+                    (Some(source_skills), Some(candidate_skills)) => source_skills.is_subset(candidate_skills),
+                    (source_set, candidate_set) => check_skill_sets(source_set, candidate_set),
+                };
+
                 check_skill_sets(source_skills.all_of.as_ref(), candidate_skills.all_of.as_ref())
-                    && check_skill_sets(source_skills.one_of.as_ref(), candidate_skills.one_of.as_ref())
+                    && check_one_of
                     && check_skill_sets(source_skills.none_of.as_ref(), candidate_skills.none_of.as_ref())
             }
         };
